@@ -743,6 +743,11 @@ func c13RunCLI(run *ev.Run, cc codecCounts, bin, base, id string, files []c13Fil
 		s = codecRunVegeta(bin, append(append([]string{"report"}, args...), single)...)
 		m = codecRunVegeta(bin, append(append([]string{"report"}, args...), paths...)...)
 		cc["cli_report_runs"] += 2
+		if m.Hang != "" && s.Err == nil {
+			// the same results in one file are reported at once, split over several files the command never ends
+			viol("command-never-ends/"+m.Hang, report, fmt.Sprintf("vegeta report over the single file ends, over the %d files it %v", len(paths), m.Err), "", "")
+			return s, m, false
+		}
 		if s.Err != nil || m.Err != nil {
 			run.Inconclusive(fmt.Sprintf("vegeta report could not be run: %v %v", s.Err, m.Err))
 			return s, m, false
@@ -871,6 +876,10 @@ func c13RunCLI(run *ev.Run, cc codecCounts, bin, base, id string, files []c13Fil
 	}
 	res := codecRunVegeta(bin, append([]string{"encode", "-to", to, "-output", out}, encPaths...)...)
 	cc["cli_encode_runs"]++
+	if res.Hang != "" {
+		viol("command-never-ends/"+res.Hang, "encode", fmt.Sprintf("vegeta encode over the %d files: %v", len(paths), res.Err), "", "")
+		return
+	}
 	if res.Err != nil {
 		run.Inconclusive("vegeta encode could not be run: " + res.Err.Error())
 		return
